@@ -152,13 +152,23 @@ func execute(p *Program, s *Sched, o execOpts) *Outcome {
 		} else if r.Panic != "" {
 			return viol("panic", "panic-in-prefix", r.Panic)
 		}
-		if keep < fill {
+	}
+	unfill := func() *Outcome {
+		if fill > 0 && keep < fill {
 			bd := model.Op{K: model.HBulkDel, Key: ColdBase + keep, N: fill - keep}
 			if r, f := seqDo(api, &bd); f != nil {
 				return viol("scheduler:"+f.Kind, f.Kind+":prefix", "emptying the container did not terminate: "+f.Detail)
 			} else if r.Panic != "" {
 				return viol("panic", "panic-in-prefix", r.Panic)
 			}
+		}
+		return nil
+	}
+	// shrink steering: the hot keys are stored BEFORE the table is emptied, so that the prefix's own
+	// deletes stay above the shrink threshold and the shrink is left for the concurrent phase
+	if p.Mode != "shrink" {
+		if o := unfill(); o != nil {
+			return o
 		}
 	}
 	m.ColdN = keep
@@ -190,6 +200,11 @@ func execute(p *Program, s *Sched, o execOpts) *Outcome {
 		}
 		if err := m.Step(&op, &out.Recs[len(out.Recs)-1].Res); err != nil {
 			return viol("sequential", "prefix:"+op.K.String(), fmt.Sprintf("prefix op %s: %v", op.String(), err))
+		}
+	}
+	if p.Mode == "shrink" {
+		if o := unfill(); o != nil {
+			return o
 		}
 	}
 	out.m = m
